@@ -223,15 +223,25 @@ def constant_divisor_probes():
     """The divisor is a compile-time constant that is zero *on the machine* at some word sizes (a non-zero multiple of
     2^16 / 2^24 / 2^32, written as a literal or folded from small literals); the dividend comes from argv."""
     out = []
-    consts = [('65536', ''), ('131072', ''), ('(-65536)', ''), ('16777216', ''), ('4294967296', ''), ('(K * K)', 'const int K = 256;'),
+    consts = [('512', ''), ('1024', ''), ('257', ''), ('255', ''), ('65536', ''), ('131072', ''), ('(-65536)', ''), ('16777216', ''), ('4294967296', ''), ('(K * K)', 'const int K = 256;'),
               ('(K * K)', 'const int K = 4096;'), ('(K * K * K * K)', 'const int K = 256;'), ('65537', ''), ('(K * K + 1)', 'const int K = 256;'),
               ('256', ''), ('(K - K + 3)', 'const int K = 256;')]
     for op in ('/', '%'):
         for ci, (c, cdecl) in enumerate(consts):
-            for pos in ('value', 'compound_local', 'compound_elem', 'cond'):
-                glob = GLOBAL_CANARY + cdecl + '\n'
-                body = 'int x = d; int[] arr3 = [100, d, 25];'
-                if pos == 'value':
+            for pos in ('value', 'compound_local', 'compound_elem', 'cond', 'compound_byte_local', 'compound_byte_elem', 'compound_byte_global'):
+                glob = GLOBAL_CANARY + cdecl + '\nbyte gb = \'d\';\n'
+                body = 'int x = d; int[] arr3 = [100, d, 25]; byte bx = (d + 100) is byte; byte[] barr = [\'d\', (d + 50) is byte];'
+                if pos.startswith('compound_byte') and c in ('(K * K)', '(K * K * K * K)', '(K * K + 1)', '(K - K + 3)'):
+                    continue        # a const *variable* is not coercible to byte: only literal divisors apply to byte targets
+                if pos == 'compound_byte_local':
+                    stmt = 'bx %s= %s; write(bx is int);' % (op, c)
+                elif pos == 'compound_byte_elem':
+                    stmt = 'barr[1] %s= %s; write(barr[1] is int);' % (op, c)
+                elif pos == 'compound_byte_global':
+                    stmt = 'gb %s= %s; write(gb is int);' % (op, c)
+                if pos.startswith('compound_byte'):
+                    pass
+                elif pos == 'value':
                     stmt = 'write(x %s %s);' % (op, c)
                 elif pos == 'cond':
                     stmt = "if ((x %s %s) > 1) { write('>'); } else { write('<'); }" % (op, c)
